@@ -1,7 +1,7 @@
 (* C02 correspondence: case type, model observation `run`, executable statement `spec_ok`.
    spec_ok is written from the property text against `Pipe.eval` / `Pipe.needed` (the specification: plain
    recursion along the producer relation); it never calls `Pipe.run`. *)
-From Verif Require Export Base.Prelude Base.StrOrd Base.Graph Model.Pipe Corr.PipeObs.
+From Verif Require Export Base.Prelude Base.StrOrd Base.Graph Model.Pipe Model.SymNone Corr.PipeObs.
 
 Inductive case :=
 | CRun (p : pipeline) (o : str) (kw : alist) (full : bool) (entry : nat)
@@ -11,8 +11,8 @@ Inductive case :=
 | CRootCall (p : pipeline) (o : str) (vals : list str)   (* func(o).call_with_root_args( *vals ) *)
 | CGraph (g : graph).                               (* networkx agreement of Base/Graph.v *)
 
-Definition body := Sym.body.
-Definition pick := Sym.pick.
+Definition body := SymN.body.
+Definition pick := SymN.pick.
 
 Definition sx_outcome (x : outcome) : sx :=
   match x with Value v => SS v | Full d => sx_sorted_dict d end.
